@@ -10,6 +10,8 @@ import (
 	"path/filepath"
 	"runtime"
 	"strings"
+	"syscall"
+	"time"
 
 	mxj "github.com/clbanning/mxj/v2"
 
@@ -154,6 +156,19 @@ func (c19) Case(c *core.Ctx) {
 		fn = filepath.Join(dir, strings.Repeat("n", 236+r.Intn(20)))
 		defer os.Remove(fn)
 		c.Count("file-name-near-NAME_MAX")
+	}
+	if fn == filepath.Join(dir, "c19.data") && r.Intn(10) == 0 {
+		// a name that goes through a symbolic link to a directory and then "..": the operating system resolves it to
+		// <dir>/real/c19.dots, a lexical clean-up of the name would make it <dir>/sub/c19.dots
+		os.MkdirAll(filepath.Join(dir, "real", "inner"), 0o755)
+		os.MkdirAll(filepath.Join(dir, "sub"), 0o755)
+		os.Remove(filepath.Join(dir, "sub", "link"))
+		if err := os.Symlink(filepath.Join("..", "real", "inner"), filepath.Join(dir, "sub", "link")); err == nil {
+			fn = dir + "/sub/link/../c19.dots"
+			defer os.Remove(filepath.Join(dir, "real", "c19.dots"))
+			defer os.Remove(filepath.Join(dir, "sub", "c19.dots"))
+			c.Count("file-name-through-symlinked-dir-and-dotdot")
+		}
 	}
 	isJSON := c.Index%2 == 1
 	n := 1 + r.Intn(6)
@@ -485,12 +500,38 @@ func (c19) Case(c *core.Ctx) {
 
 	// ---- bad paths ----
 	if c.Index%4 == 0 {
-		for _, p := range hostilePaths(dir, fn) {
+		fifo := filepath.Join(dir, "c19.fifo")
+		os.Remove(fifo)
+		paths := hostilePaths(dir, fn)
+		if syscall.Mkfifo(fifo, 0o644) == nil {
+			paths = append(paths, fifo)
+			defer os.Remove(fifo)
+		}
+		for _, p := range paths {
 			c.Count("bad-path-checks")
-			_, e1 := mxj.NewMapsFromXmlFile(p)
-			_, e2 := mxj.NewMapsFromXmlFileRaw(p)
-			_, e3 := mxj.NewMapsFromJsonFile(p)
-			_, e4 := mxj.NewMapsFromJsonFileRaw(p)
+			var e1, e2, e3, e4 error
+			done := make(chan struct{})
+			go func() {
+				_, e1 = mxj.NewMapsFromXmlFile(p)
+				_, e2 = mxj.NewMapsFromXmlFileRaw(p)
+				_, e3 = mxj.NewMapsFromJsonFile(p)
+				_, e4 = mxj.NewMapsFromJsonFileRaw(p)
+				close(done)
+			}()
+			select {
+			case <-done:
+			case <-time.After(20 * time.Second):
+				// watchdog, not a deadline: opening a FIFO that has no writer blocks for ever, however fast the machine is.
+				// (release the blocked goroutine: become the writer it waits for - once per reader - and go away)
+				for k := 0; k < 4; k++ {
+					if w, err := os.OpenFile(p, os.O_WRONLY|syscall.O_NONBLOCK, 0); err == nil {
+						w.Close()
+					}
+					time.Sleep(50 * time.Millisecond)
+				}
+				c.Violate("c19-bad-path-blocks", "a file reader given the name of something that is not a regular file (a FIFO without a writer) does not return", core.D{"path": p})
+				continue
+			}
 			if e1 == nil || e2 == nil || e3 == nil || e4 == nil {
 				c.Violate("c19-bad-path-accepted", "a missing file, directory or non-regular file did not yield an error", core.D{"path": p, "errs": fmt.Sprint(e1, e2, e3, e4)})
 			}
